@@ -30,6 +30,7 @@ from apischema.objects.visitor import (
     ObjectVisitor,
     SerializationObjectVisitor,
 )
+from apischema.serialization.serialized_methods import get_serialized_methods
 from apischema.types import AnyType
 from apischema.utils import Lazy
 from apischema.visitor import Result
@@ -131,7 +132,11 @@ class DeserializationRecursiveChecker(
 class SerializationRecursiveChecker(
     SerializationVisitor, SerializationObjectVisitor, RecursiveChecker[Serialization]
 ):
-    pass
+    def object(self, tp: AnyType, fields: Sequence[ObjectField]):
+        super().object(tp, fields)
+        # serialized methods are properties of the serialized object too
+        for serialized, types in get_serialized_methods(tp):
+            self.visit_with_conv(types["return"], serialized.conversion)
 
 
 @cache  # use @cache for reset
